@@ -570,7 +570,7 @@ UNITS['pollsignal_verus'] = dict(name='pollsignal_verus', engine='verus', module
     obligations=['C09.V-FLUSH-NONBLOCKING', 'C09.V-FLUSH-DRAINS', 'C11.V-POLL-PENDING', 'C11.V-PENDING-ONLY-IF-ARMED', 'C11.V-CLOSED-REAL', 'C10.V-SIGNAL-FROM-SCAN', 'C11.V-ERR-FROM-CALLBACK', 'C09.V-POLL-PROTOCOL'])
 FP = 'iterator/backend.rs: SignalIterator::poll_signal (extracted text, Verus, callees by contract, every number of loop iterations / callback answers / instants of close()): '
 obl('C11.V-PENDING-ONLY-IF-ARMED', FP + 'ensures', 'Pending is returned only when the last steps were: readiness callback consulted and answered Ok(false), then one more load of the closed flag that returned false; never after poll_pending returned None because the instance was closed (the defect fixed by 7cdbcb2), never after a refreshed batch that was not re-polled', also=['C09'])
-obl('C09.V-FLUSH-NONBLOCKING', 'iterator/backend.rs: SignalDelivery::flush (extracted text, Verus, any number of reads)', 'every system call of the drain is recv(<read end>, buf, len, MSG_DONTWAIT): it never blocks, whatever number of bytes is queued', also=['C11', 'C03'])
+obl('C09.V-FLUSH-NONBLOCKING', 'iterator/backend.rs: SignalDelivery::flush (extracted text, Verus, any number of reads)', 'every system call of the drain is recv(<read end>, buf, len, MSG_DONTWAIT): it never blocks, whatever number of bytes is queued', also=['C11'])
 obl('C09.V-FLUSH-DRAINS', 'iterator/backend.rs: SignalDelivery::flush (extracted text, Verus, any number of reads)', 'the drain goes on exactly as long as recv returns bytes: every result but the last is > 0 and the last is <= 0 (pipe observed empty, or an error) - for an unbounded number of reads (the Kani harness bounds it)')
 obl('C11.V-POLL-PENDING', 'iterator/backend.rs: SignalDelivery::poll_pending (extracted text, Verus, every state of the closed flag / every callback answer)', 'closed (the one load of the flag returned true) => Ok(None) and the readiness callback is NOT consulted (it could block for ever); otherwise the callback is consulted exactly once: Ok(false) => Ok(None), Ok(true) => drain + fresh batch => Ok(Some), Err => Err; nothing else happens. This verified contract is what poll_signal sees at its call site', also=['C09'])
 obl('C11.V-CLOSED-REAL', FP + 'ensures', 'Closed is returned only after a load of the closed flag returned true (the last event of the trace)')
@@ -599,7 +599,8 @@ obl('C12.V-ADD-IDEMPOTENT', FA + 'ensures', 'the signal is already in the set: O
 obl('C12.V-ADD-ERR-NO-CHANGE', FA + 'ensures', 'a refused addition (the registration returns Err) leaves the table exactly as it was at lock acquisition, after exactly one registration attempt, for this signal - so the same call can be retried', also=['C14'])
 obl('C12.V-ADD-OK-RECORDS-ID', FA + 'ensures', 'a successful addition makes exactly one registration, for this signal, under the table lock, and records exactly the id it returned at table[signal]; every other entry is unchanged (so Drop unregisters precisely what this instance registered)', also=['C10'])
 obl('C12.V-ADD-NO-PANIC', FA + 'verifier-generated checks', 'for 0 <= signal < 128 no index or arithmetic check on a line of the real function fails (the documented panics are exactly the out-of-range inputs)')
-PROPS['C12']['units'] = PROPS['C12']['units'] + ['addsignal_verus']
+for _p in ('C12', 'C14', 'C10'):
+    PROPS[_p]['units'] = PROPS[_p]['units'] + ['addsignal_verus']
 PROPS['C12']['trusted'] = PROPS['C12']['trusted'] + ['Verus unit addsignal_verus: stand-ins for Handle / DeliveryState / the id-table mutex and its guard (length 128, poison ignored by `unwrap_or_else(PoisonError::into_inner)`) / Arc / the two trait objects; assumed trace contract of <Arc<PendingSignals<E>>>::add_signal (real body under Kani contract); rewrites A0-A1; signals outside 0..128 are not covered by this unit (documented panics, decided natively)']
 PROPS['C12']['technique'] = 'requires/ensures contract of the real Handle::add_signal on its mechanically extracted text for every table state (Verus/Z3) + checks-before-effects / clean-up trace contracts on the real backend.rs (Kani/CBMC, table of 4 or one signal of 128) + native executions for the post-panic scenarios'
 
